@@ -75,6 +75,7 @@ var htmlCorpus = gen.Words(
 
 var htmlDict = gen.Words(
 	"<", ">", "</", "/>", "<!--", "-->", "--!>", "<!", "<?", "?>", "<%", "%>", "{{", "}}", "=", "\"", "'", "/", " ", "\n", "\t", "\f", "\r",
+	"</feComponentTransfer>", "</aVeryLongClosingTagNameOfThirtyNineChars", "<svg><filter><feDiffuseLighting></feDiffuseLighting></filter></svg>",
 	"<script", "</script", "<script>", "</script>", "<style>", "</style>", "<svg", "</svg>", "<math>", "</math>", "<xml>", "</xml>",
 	"<title>", "</title>", "<textarea>", "</textarea>", "<plaintext>", "<xmp>", "</xmp>", "<iframe>", "</iframe>",
 	"<![CDATA[", "]]>", "<!doctype", "<!DOCTYPE ", "a", "B", "\x00", "\xff", "\xc3\xa9", "\\", "<a ", "<a b=", "x=y",
@@ -113,6 +114,9 @@ var jsonDict = gen.Words(
 )
 
 var jsCorpus = gen.Words(
+	"x = 1\n--> html-like close comment\ny = 2",
+	"/* multi\nline */ --> also a comment\nz",
+	"<!-- html-like open comment\na = b --> c",
 	`var a = 1, b = [2, 3], c = {d: 4, "e": 5, [f]: 6, g() {}, get h() { return 1 }, set h(v) {}, ...i};`,
 	`function f(a, b = 1, ...c) { "use strict"; return a + b * c ** 2 }`,
 	`async function* g() { yield* h(); await x; for await (const y of z) {} }`,
